@@ -37,6 +37,12 @@ type HistOpts struct {
 	// pages (or one page plus one record), and every pointer of a record is
 	// nil, or none is, so that level runs are exactly as long as the page.
 	BoundaryPct int
+	// GiantPct: PER MILLE of histories of the "giant page" class: one batch of
+	// 11..16 records whose string column holds 100 000..140 000 bytes each, in one
+	// page: a single page body of 1.1-2.2 MiB (beyond any 1 MiB block or limit),
+	// optionally with a small batch before and after it. Shapes kv (the string is
+	// the last column) and flat.
+	GiantPct int
 	// NoEdge switches off the edge-value class (on by default: in 15 percent of
 	// the histories a quarter of the scalars are edge values: min/max integers,
 	// varint boundaries, NaN, infinities, negative zero, empty strings, strings
@@ -92,6 +98,9 @@ func GenHistory(r *Rng, o HistOpts) *WriterSpec {
 	}
 	if o.BoundaryPct > 0 && r.Intn(1000) < o.BoundaryPct {
 		return genBoundary(r, o)
+	}
+	if o.GiantPct > 0 && r.Intn(1000) < o.GiantPct {
+		return genGiant(r, o)
 	}
 	if !o.NoEdge && r.Intn(100) < 15 {
 		o.Profile.EdgePct = 25
@@ -383,6 +392,43 @@ func ShrinkWriter(w *WriterSpec) []*WriterSpec {
 }
 
 // genBoundary draws a history of the boundary class (see HistOpts.BoundaryPct).
+// genGiant: see HistOpts.GiantPct.
+func genGiant(r *Rng, o HistOpts) *WriterSpec {
+	w := &WriterSpec{Giant: true, Huge: true}
+	field := "Body"
+	w.Shape = "kv"
+	if r.Chance(1, 3) {
+		w.Shape, field = "flat", "S"
+	}
+	w.Codec = Codecs[r.Pick(3, 3, 1)]
+	w.Page = r.Range(16, 64)
+	sh := GetShape(w.Shape)
+	small := func() {
+		for i, n := 0, r.Range(1, 3); i < n; i++ {
+			w.Ops = append(w.Ops, AddOp(GenRec(r, sh.Type, o.Profile)))
+		}
+		w.Ops = append(w.Ops, WriteOp())
+	}
+	if r.Chance(1, 3) {
+		small()
+	}
+	for i, n := 0, r.Range(11, 16); i < n; i++ {
+		b := make([]byte, r.Range(100000, 140000))
+		for j := range b {
+			b[j] = byte('a' + r.Intn(26))
+		}
+		w.Ops = append(w.Ops, AddOp(WithString(GenRec(r, sh.Type, o.Profile), field, string(b))))
+	}
+	w.Ops = append(w.Ops, WriteOp())
+	if r.Chance(1, 3) {
+		small()
+	}
+	if !o.NoClose {
+		w.Ops = append(w.Ops, CloseOp())
+	}
+	return w
+}
+
 func genBoundary(r *Rng, o HistOpts) *WriterSpec {
 	w := &WriterSpec{Boundary: true, Large: true}
 	w.Shape = o.Shapes[r.Intn(len(o.Shapes))]
